@@ -78,6 +78,28 @@ def expand_objs(state, text):
     return text
 
 
+def bind_call(call, names):
+    """{parameter name: argument text} of a recorded call, positional and keyword arguments alike (names: the callee's parameters in
+    order, without the receiver).  Surplus positional arguments are returned under '*'."""
+    pos, kw = list(call[1]), dict(call[2])
+    out = dict(zip(names, pos))
+    if len(pos) > len(names):
+        out['*'] = pos[len(names):]
+    for k, v in kw.items():
+        out['!dup' if k in out else k] = v
+    return out
+
+
+def call_text(call):
+    """The text the interpreter gives the result of an opaque call."""
+    return '%s(%s)' % (call[0], ', '.join(list(call[1]) + ['%s=%s' % kv for kv in call[2].items()]))
+
+
+def draws(state, suffix):
+    """Calls of an entropy source on this path (by the last component(s) of the callee text)."""
+    return [c for c in state.calls if c[0] == suffix or c[0].endswith('.' + suffix)]
+
+
 # ------------------------------------------------------------------------------------------------ term structure
 def norm_term(text):
     """BYTE(<int literal>) is the constant octet; adjacent constants are one constant."""
